@@ -122,6 +122,8 @@ def run_one(p):
                 os.makedirs(os.path.dirname(full), exist_ok=True)
                 with open(full, "w") as f:
                     f.write(src)
+            for rel in p.get("dirs") or []:
+                os.makedirs(os.path.join(root, rel), exist_ok=True)
             sys.path[:] = [os.path.join(root, d) for d in p.get("path", ["."])]
             sys.dont_write_bytecode = True
         # the program IS the __main__ module of its run: `import __main__` from
